@@ -359,7 +359,8 @@ class Builder:
 def _n_sessions(ch, fixed):
     if fixed != "any":
         return fixed
-    return ch.choice([None, None, 1, 1, 2, 3, 0])
+    # a TPM takes at most three sessions, the decoder any number: four and five are drawn rarely
+    return ch.choice([None, None, None, 1, 1, 1, 2, 2, 3, 3, 0, 0, 4, 5])
 
 
 @st.composite
@@ -468,3 +469,40 @@ def reachable_arms(layout):
                 ut = layout.field_type(sname, uf)
                 arms.add((ut, layout.select(ut, v)))
     return arms
+
+
+@st.composite
+def long_streams(draw, layout, min_pairs=150, max_pairs=320):
+    """A long stream of small command/response pairs (hundreds of messages, thousands of list events in one stream)."""
+    ch = HypChooser(draw)
+    n = ch.int(min_pairs, max_pairs)
+    small = [c for c in ("Startup", "GetRandom", "SelfTest", "StirRandom", "FlushContext", "ReadClock", "PCR_Reset") if c in layout.commands]
+    b = Builder(layout, ch, big=False, rare=False)
+    toks, msgs = [], []
+    for i in range(n):
+        cc_name = ch.choice(small)
+        ns = ch.choice([None, 1, 1, 2])
+        ctoks, cmeta = b.command(cc_name, ns)
+        msgs.append({"kind": "Command", "cc_name": cc_name, "cc": layout.commands[cc_name]["code"], "first_token": len(toks), "n_tokens": len(ctoks), "sessions": ns, "encrypt": cmeta["encrypt"], "decrypt": cmeta["decrypt"]})
+        toks += ctoks
+        failed = ch.chance(1, 8)
+        rtoks, rmeta = b.response(cc_name, ns if not failed else None, enc=cmeta["encrypt"], failed=failed)
+        msgs.append({"kind": "Response", "cc_name": cc_name, "cc": layout.commands[cc_name]["code"], "first_token": len(toks), "n_tokens": len(rtoks), "sessions": ns, "failed": failed, "enc": cmeta["encrypt"]})
+        toks += rtoks
+    meta = b.meta()
+    meta["messages"] = msgs
+    return Case("CommandResponseStream", toks, layout, meta=meta)
+
+
+LONG_LIST_TYPES = [("TPML_PCR_SELECTION", "count"), ("TPML_DIGEST", "count"), ("TPML_HANDLE", "count"), ("TPML_ALG_PROPERTY", "count"), ("TPML_TAGGED_TPM_PROPERTY", "count")]
+
+
+@st.composite
+def long_lists(draw, layout):
+    """A counted list with around a thousand elements (several thousand events, thousands of nested lists)."""
+    ch = HypChooser(draw)
+    tname, field = ch.choice([t for t in LONG_LIST_TYPES if t[0] in layout.snap["structs"]])
+    n = ch.choice([260, 520, 1000, 1100, 1300])
+    b = Builder(layout, ch, big=False, rare=False)
+    toks = b.struct(tname, "", 3, overrides={field: n})
+    return Case(tname, toks, layout, meta=b.meta())
